@@ -59,7 +59,7 @@ GenCSpec == GenCInit /\ [][FALSE]_gvars
 BombF == [flag |-> 1, len |-> 64, ilen |-> 67108864, body |-> "msg", id |-> 9, corrupt |-> FALSE]
 LieF  == [flag |-> 0, len |-> 1073741824, ilen |-> 1073741824, body |-> "msg", id |-> 9, corrupt |-> FALSE, lie |-> TRUE]
 GenDInit ==
-  /\ \E p \in {"connect", "grpc", "grpcweb"}, sd \in {"client", "handler"}, atk \in {"bomb", "lie", "maxlimit"}, pos \in 1..2 :
+  /\ \E p \in {"connect", "grpc", "grpcweb"}, sd \in {"client", "handler"}, atk \in {"bomb", "lie", "lieflag", "maxlimit"}, pos \in 1..2 :
        LET pre == [i \in 1..(pos - 1) |-> LMsg(20, i)]
            tr == IF p = "grpc" /\ sd = "client" THEN "ok" ELSE "none"
            tf == IF p = "grpc" \/ sd = "handler" THEN <<>> ELSE <<EndOK(p)>>
@@ -67,6 +67,9 @@ GenDInit ==
           THEN InitWith(Base(p, sd, 131072, "gzip", pre \o <<BombF>> \o tf, 2000000000, "eof", tr) @@ [bomb |-> TRUE])
           ELSE IF atk = "lie"
           THEN InitWith(Base(p, sd, 131072, "none", pre \o <<LieF>>, BLen(pre) + 13, "eof", "none") @@ [bomb |-> TRUE])
+          ELSE IF atk = "lieflag"   \* the same lie in an envelope flagged as the protocol's terminator
+          THEN InitWith(Base(p, sd, 131072, "none", pre \o <<[LieF EXCEPT !.flag = TFlag(p), !.body = "endok"]>>,
+                             BLen(pre) + 13, "eof", "none") @@ [bomb |-> TRUE])
           ELSE InitWith(Base(p, sd, 0, "none", pre \o <<LMsg(40, 9)>> \o tf, 2000000000, "eof", tr) @@ [maxlimit |-> TRUE])
   /\ script = <<>> /\ ew = FALSE
 \* the largest possible limit on the unary Connect path (no envelope)
